@@ -440,7 +440,7 @@ def _changes(before, after, dest):
 def classify(entries, dest):
     """which known shape of escape a failing archive has (match key `via`)"""
     nlinks = sum(1 for e in entries if e["kind"] == "l" and not e["empty"])
-    if dest == "none":
+    if dest == "none" and nlinks < 2:
         for e in entries:
             n = e["name"].lstrip("/")
             if n.startswith("./"):
@@ -449,7 +449,6 @@ def classify(entries, dest):
                 return "none-dest-absolute-name"
         if any(".." in e["name"].split("/") for e in entries):
             return "none-dest-dotdot-name"
-        return "none-dest-other"
     if nlinks >= 2:
         return "symlink-chain"
     if nlinks == 1:
@@ -985,24 +984,26 @@ def check_lexical(ctx, rep, rng, tier):
                               {"kind": "lexical", "fn": "sanitize", "s": s, "dest": d}, concrete=False,
                               match_keys={"kind": "model-mismatch"})
                 nbad += 1
-            if d is not None:
-                tbase = pathlib.Path(d) if pathlib.Path(d).is_absolute() else pathlib.Path(cwd).joinpath(d)
-                tbase = canonical_path(tbase).joinpath("x")          # fileish.parent of a member "x/<link>"
-                tgt = tbase.joinpath(s)
-                realv = is_path_valid(tgt, pathlib.Path(d))
-                got = model.call("fs_is_path_valid", [pp(str(tgt)), rp(cwd), pp(d)])
-                # joinpath through the model too
-                jp = model.call("fs_joinstr", [pp(str(tbase)), s2l(s)])
-                if jp != pp(str(tgt)):
-                    rep.violation("joinpath(%r): model %r pathlib %r" % (s, jp, str(tgt)),
-                                  {"kind": "lexical", "fn": "joinpath", "s": s}, concrete=False,
-                                  match_keys={"kind": "model-mismatch"})
-                    nbad += 1
-                if (got == 1) != realv:
-                    rep.violation("is_path_valid(%r, %r): model %r code %r" % (str(tgt), d, got, realv),
-                                  {"kind": "lexical", "fn": "is_path_valid", "s": s, "dest": d}, concrete=False,
-                                  match_keys={"kind": "model-mismatch"})
-                    nbad += 1
+            dpath = pathlib.Path(d) if d is not None else pathlib.Path(cwd)
+            tbase = dpath if dpath.is_absolute() else pathlib.Path(cwd).joinpath(dpath)
+            tbase = canonical_path(tbase).joinpath("x")              # fileish.parent of a member "x/<link>"
+            if d is None:
+                tbase = pathlib.Path("x")                            # without a destination fileish is relative
+            tgt = tbase.joinpath(s)
+            realv = is_path_valid(tgt, None if d is None else pathlib.Path(d))
+            got = model.call("fs_is_path_valid", [pp(str(tgt)), rp(cwd), [] if d is None else [pp(d)]])
+            # joinpath through the model too
+            jp = model.call("fs_joinstr", [pp(str(tbase)), s2l(s)])
+            if jp != pp(str(tgt)):
+                rep.violation("joinpath(%r): model %r pathlib %r" % (s, jp, str(tgt)),
+                              {"kind": "lexical", "fn": "joinpath", "s": s}, concrete=False,
+                              match_keys={"kind": "model-mismatch"})
+                nbad += 1
+            if (got == 1) != realv:
+                rep.violation("is_path_valid(%r, %r): model %r code %r" % (str(tgt), d, got, realv),
+                              {"kind": "lexical", "fn": "is_path_valid", "s": s, "dest": d}, concrete=False,
+                              match_keys={"kind": "model-mismatch"})
+                nbad += 1
         if nbad > 5:
             return
     # ordering of paths (sorted(target_dirs))
